@@ -13,6 +13,10 @@ pub uninterp spec fn h_number(h: &HeaderView) -> u64;
 impl HeaderView { #[verifier::external_body] pub fn number(&self) -> (r: u64) ensures r == h_number(self) { unimplemented!() } }
 impl Clone for Script { #[verifier::external_body] fn clone(&self) -> (r: Script) ensures r == *self { unimplemented!() } }
 impl PartialEq for Script { #[verifier::external_body] fn eq(&self, o: &Script) -> (r: bool) ensures r == (*self == *o) { unimplemented!() } }
+impl vstd::std_specs::cmp::PartialEqSpecImpl for Script {
+    open spec fn obeys_eq_spec() -> bool { true }
+    open spec fn eq_spec(&self, o: &Script) -> bool { *self == *o }
+}
 // ASSUMED: derive(PartialEq) on Capacity(u64) compares the field
 impl vstd::std_specs::cmp::PartialEqSpecImpl for Capacity {
     open spec fn obeys_eq_spec() -> bool { true }
